@@ -50,6 +50,14 @@ type Runner struct {
 	// (used when the runner verifies a recovered or derived file).
 	AsProp      string
 	AfterCreate func()
+	// concurrency support
+	SkipLocksIdle bool         // other transactions may be open: skip the idle-lock check
+	MultiWriter   bool         // several writer tasks share this runner (Begin blocks)
+	NoRecord      bool         // tasks record their operations themselves
+	ReadOpened    func()       // VerifyAll opened its read transaction
+	ReadClosed    func()       // VerifyAll closed its read transaction
+	OnTxEnd       func()       // called right after a write transaction ended (before post checks)
+	BeforeEnd     func()       // called right before Commit/Rollback/Close is invoked
 }
 
 // fail records a violation, relabelled if AsProp is set.
@@ -62,6 +70,7 @@ func (r *Runner) fail(prop, class, format string, args ...interface{}) {
 
 // CommitRec describes one commit attempt of the history.
 type CommitRec struct {
+	InvSeq, RetSeq uint64 // global event sequence numbers of Commit's invocation and return
 	Begin, End int // op-log indices of the markers (End = -1 while running)
 	OK         bool
 	State      *State // state that this commit produces (also for failed ones: the attempted state)
@@ -220,6 +229,9 @@ func (r *Runner) Apply(op Op) bool {
 	if r.E.Failed() {
 		return false
 	}
+	if r.NoRecord {
+		return r.apply(op)
+	}
 	// record first, so that an operation that panics is part of the history
 	r.Ops = append(r.Ops, op)
 	ok := r.apply(op)
@@ -234,12 +246,16 @@ func (r *Runner) apply(op Op) bool {
 	ps := r.Cfg.PageSize
 	switch op.K {
 	case "begin":
-		if r.tx != nil || r.F == nil {
+		if (r.tx != nil && !r.MultiWriter) || r.F == nil {
 			return false
 		}
 		tx, err := r.F.BeginWith(r.txOptions(op))
 		if err != nil {
 			e.Fail("C09", "begin-failed", "Begin failed: %v", err)
+			return true
+		}
+		if r.tx != nil {
+			e.Fail("C09", "two-writers", "Begin returned a second write transaction while another write transaction is still active")
 			return true
 		}
 		r.tx = tx
@@ -507,12 +523,18 @@ func (r *Runner) apply(op Op) bool {
 			return false
 		}
 		var err error
+		if r.BeforeEnd != nil {
+			r.BeforeEnd()
+		}
 		if op.K == "rollback" {
 			err = r.tx.Rollback()
 		} else {
 			err = r.tx.Close()
 		}
 		r.tx = nil
+		if r.OnTxEnd != nil {
+			r.OnTxEnd()
+		}
 		if err != nil {
 			e.Fail("C07", "rollback-error", "%s returned an error: %v", op.K, err)
 			return true
@@ -622,8 +644,16 @@ func (r *Runner) doCommit() {
 	rec := CommitRec{Begin: r.D.Marker(fmt.Sprintf("commit-begin %d", next.N)), End: -1, State: next, Prev: r.Cur()}
 	r.Commits = append(r.Commits, rec)
 	ci := len(r.Commits) - 1
+	r.Commits[ci].InvSeq = e.S.NextSeq()
+	if r.BeforeEnd != nil {
+		r.BeforeEnd()
+	}
 	err := r.tx.Commit()
 	r.tx = nil
+	r.Commits[ci].RetSeq = e.S.NextSeq()
+	if r.OnTxEnd != nil {
+		r.OnTxEnd()
+	}
 	if err != nil {
 		r.Commits[ci].End = r.D.Marker(fmt.Sprintf("commit-err %d", next.N))
 		e.Probe("commit_failed")
@@ -654,11 +684,14 @@ func (r *Runner) afterTx() {
 	if r.E.Failed() {
 		return
 	}
+	// no yield point between the end of the transaction and these two checks
+	r.CheckPartition()
+	if !r.SkipLocksIdle {
+		r.CheckLocksIdle("after transaction")
+	}
 	if !r.NoPostCheck {
 		r.VerifyAll("after transaction")
 	}
-	r.CheckPartition()
-	r.CheckLocksIdle("after transaction")
 }
 
 // VerifyAll compares the file content with the model through a read transaction.
@@ -669,11 +702,17 @@ func (r *Runner) VerifyAll(when string) {
 		e.Fail("C09", "begin-failed", "BeginReadonly failed (%s): %v", when, err)
 		return
 	}
+	if r.ReadOpened != nil {
+		r.ReadOpened()
+	}
 	if msg := VerifyState(tx, r.Cur()); msg != "" {
 		r.fail("C03", "state-mismatch", "%s: %s", when, msg)
 	}
 	if err := tx.Close(); err != nil {
 		e.Fail("C03", "unexpected-error", "closing read transaction failed: %v", err)
+	}
+	if r.ReadClosed != nil {
+		r.ReadClosed()
 	}
 }
 
@@ -778,6 +817,13 @@ func NewGen(r *Runner, rng *simsched.Rand, mix string) *Gen {
 		m = mixes["balanced"]
 	}
 	return &Gen{R: r, Rng: rng, M: m}
+}
+
+// StartTx resets the per transaction counters (used when the harness begins
+// the transaction itself).
+func (g *Gen) StartTx() {
+	g.inTxOps = 0
+	g.txLen = 1 + g.Rng.Intn(2*g.M.OpsPerTx)
 }
 
 type wop struct {
